@@ -537,7 +537,9 @@ impl<'a> Sim<'a> {
   fn next_keyboard_through_real_driver(&mut self) -> Result<VNext<Event>, String> {
     let dry_and_gone = self.kbd_ended && self.kbd_ready.is_empty();
     if dry_and_gone { self.bytes.as_mut().unwrap().unplug(false); self.stats.os_enodev += 1; }
+    let reads_before = crate::sysseam::reads_seen(self.bytes.as_ref().unwrap().device_fds().0);
     let r = self.bytes.as_mut().unwrap().raw_next_keyboard();
+    let no_syscall = crate::sysseam::reads_seen(self.bytes.as_ref().unwrap().device_fds().0) == reads_before;
     if let Some((_, false)) = self.sysread_fault {
       if !self.kbd_sabotaged && !self.once_done && crate::sysseam::watch_fired(self.bytes.as_ref().unwrap().device_fds().0) {
         // a read(2) failed somewhere inside this call; the descriptor is dead from here on. Records the
@@ -581,7 +583,10 @@ impl<'a> Sim<'a> {
         Ok(VNext::One(got))
       }
       Ok(VNext::Busy) => {
-        if dry_and_gone { if self.byte_error.is_none() { self.byte_error = Some("[driver] the keyboard was unplugged (read fails with ENODEV) but the real driver told the loop Busy: the loop would never stop".into()); } }
+        // (an answer given without any read(2) in this call is the reader's memory of an earlier EAGAIN:
+        // the hang-up came after it and is announced again; a reader that never looks again is a runaway)
+        if dry_and_gone && no_syscall { self.stats.busy_from_remembered_eagain += 1; }
+        else if dry_and_gone { if self.byte_error.is_none() { self.byte_error = Some("[driver] the keyboard was unplugged (read fails with ENODEV) but the real driver told the loop Busy: the loop would never stop".into()); } }
         else if let Some(e) = self.kbd_ready.front().cloned() {
           // a reader that reads ahead may answer from an EAGAIN it got earlier: that is the truth as of
           // its last read(2), and what was written since is announced again (a new edge). Only a reader
@@ -611,7 +616,9 @@ impl<'a> Sim<'a> {
   fn next_tablet_through_real_driver(&mut self) -> Result<VNext<bool>, String> {
     let dry_and_gone = self.has_tablet && self.tab_ended && self.tab_ready.is_empty();
     if dry_and_gone { self.bytes.as_mut().unwrap().unplug(true); self.stats.os_enodev += 1; }
+    let reads_before = crate::sysseam::reads_seen(self.bytes.as_ref().unwrap().device_fds().1);
     let r = self.bytes.as_mut().unwrap().raw_next_tablet();
+    let no_syscall = crate::sysseam::reads_seen(self.bytes.as_ref().unwrap().device_fds().1) == reads_before;
     if let Some((_, true)) = self.sysread_fault {
       if !self.tab_sabotaged && !self.once_done && crate::sysseam::watch_fired(self.bytes.as_ref().unwrap().device_fds().1) {
         self.tab_sabotaged = true; self.stats.os_sysread_fault += 1; self.stats.io_error += 1;
@@ -648,7 +655,8 @@ impl<'a> Sim<'a> {
         Ok(VNext::One(got))
       }
       Ok(VNext::Busy) => {
-        if dry_and_gone { if self.byte_error.is_none() { self.byte_error = Some("[driver] the tablet switch was unplugged (read fails with ENODEV) but the real driver told the loop Busy".into()); } }
+        if dry_and_gone && no_syscall { self.stats.busy_from_remembered_eagain += 1; }
+        else if dry_and_gone { if self.byte_error.is_none() { self.byte_error = Some("[driver] the tablet switch was unplugged (read fails with ENODEV) but the real driver told the loop Busy".into()); } }
         else if !self.tab_ready.is_empty() {
           while self.tab_stamps.len() > self.tab_ready.len() { self.tab_stamps.pop_front(); }
           let since = crate::sysseam::reads_seen(self.bytes.as_ref().unwrap().device_fds().1);
@@ -853,7 +861,23 @@ impl<'a> VerifDriver for Sim<'a> {
     }
     if self.kbd_sabotaged {
       let b = self.bytes.as_mut().unwrap();
-      return match b.raw_next_keyboard() {
+      let reads_before = crate::sysseam::reads_seen(b.device_fds().0);
+      let r = b.raw_next_keyboard();
+      // Busy without a read(2) in this call is the reader's memory of an EAGAIN from before the fault:
+      // it has not met the dead descriptor yet, nothing is hidden
+      let no_syscall = crate::sysseam::reads_seen(b.device_fds().0) == reads_before;
+      if matches!(r, Ok(VNext::Busy)) && no_syscall {
+        self.stats.busy_from_remembered_eagain += 1;
+        self.trace.push(Item::NextK { res: None, end: false, t_out: sim_now_us(), phantom: false });
+        return Ok(VNext::Busy);
+      }
+      // likewise End remembered from an ENODEV it got before the fault, on a device that is really gone
+      if matches!(r, Ok(VNext::End)) && no_syscall && self.kbd_ended {
+        self.stats.busy_from_remembered_eagain += 1;
+        self.trace.push(Item::NextK { res: None, end: true, t_out: sim_now_us(), phantom: false });
+        return Ok(VNext::End);
+      }
+      return match r {
         Err(e) => { self.hw_failed = true; self.trace.push(Item::Fail { what: "next_keyboard (OS-level read failure under the real driver)" }); Err(format!("{}: {}", INJECTED, e)) }
         Ok(VNext::One(e)) if self.kbd_ready.front() == Some(&e) => { self.kbd_ready.pop_front(); self.trace.push(Item::NextK { res: Some(e.clone()), end: false, t_out: sim_now_us(), phantom: false }); Ok(VNext::One(e)) }
         // Busy, End or an event that was never delivered although the descriptor is dead: the failure was hidden
@@ -883,7 +907,20 @@ impl<'a> VerifDriver for Sim<'a> {
     }
     if self.tab_sabotaged {
       let b = self.bytes.as_mut().unwrap();
-      return match b.raw_next_tablet() {
+      let reads_before = crate::sysseam::reads_seen(b.device_fds().1);
+      let r = b.raw_next_tablet();
+      let no_syscall = crate::sysseam::reads_seen(b.device_fds().1) == reads_before;
+      if matches!(r, Ok(VNext::Busy)) && no_syscall {
+        self.stats.busy_from_remembered_eagain += 1;
+        self.trace.push(Item::NextT { res: None, end: false, t_out: sim_now_us(), phantom: false });
+        return Ok(VNext::Busy);
+      }
+      if matches!(r, Ok(VNext::End)) && no_syscall && self.tab_ended {
+        self.stats.busy_from_remembered_eagain += 1;
+        self.trace.push(Item::NextT { res: None, end: true, t_out: sim_now_us(), phantom: false });
+        return Ok(VNext::End);
+      }
+      return match r {
         Err(e) => { self.hw_failed = true; self.trace.push(Item::Fail { what: "next_tablet (OS-level read failure under the real driver)" }); Err(format!("{}: {}", INJECTED, e)) }
         Ok(VNext::One(on)) if self.tab_ready.front() == Some(&on) => { self.tab_ready.pop_front(); self.trace.push(Item::NextT { res: Some(on), end: false, t_out: sim_now_us(), phantom: false }); Ok(VNext::One(on)) }
         Ok(other) => { self.hw_failed = true; self.trace.push(Item::Fail { what: "next_tablet (OS-level read failure hidden by the driver)" }); Ok(other) }
